@@ -6,7 +6,8 @@
    which uses exactly these tables) is what eos computes for every filter x
    domain x operator x aggregate combination is established by correspondence. *)
 From Coq Require Import ZArith QArith List Bool.
-From EosV Require Import lib.AList gen.T_eos model.World model.Calc proofs.Combine_p.
+From Coq Require Import Permutation.
+From EosV Require Import lib.AList gen.T_eos model.World model.Calc proofs.Combine_p proofs.Perm_p.
 Import ListNotations.
 
 Theorem C02_penalizable_operators : PENALIZABLE_OPERATORS = [2; 6; 9; 3; 8]%Z.
@@ -46,6 +47,47 @@ Theorem C02_round_nearest : forall x,
   (inject_Z (round_half_even x) - (1#2) <= x /\ x <= inject_Z (round_half_even x) + (1#2))%Q.
 Proof. exact round_half_even_near. Qed.
 
+(* --- what the combined value IS (all inputs, no bound on their number) ---------------------------- *)
+(* The base value is taken through ALL ten operators in their fixed order. Each operator is applied to
+   [op_vals]: the penalty-free values that reach it (stacking modifications, plus the survivor of every
+   minimum / maximum aggregation group that is not penalised), followed by ONE combined value of the
+   penalised ones (the stacking-penalty chain over penalised stacking values and penalised survivors;
+   absent when there are none). Assignments take the extreme by high-is-good, additions add, the
+   multiplications multiply by (1 + x); an operator nothing reaches leaves the value alone. *)
+Theorem C02_value_by_operator : forall pen hig base mods,
+  combine_mods pen hig base mods =
+  fold_left (fun value op => opl hig value op (op_vals pen mods op)) ModOperator_members base.
+Proof. exact combine_mods_by_operator. Qed.
+(* the pieces [op_vals] is made of, in terms of the gathered modifications only *)
+Theorem C02_group_members : forall mods mode k,
+  getl aggkey_eqb (aggs mode mods) k
+  = map (fun g => (g_val g, g_pen g))
+        (filter (fun g => Z.eqb (g_mode g) mode && aggkey_eqb k (g_op g, g_key g)) mods).
+Proof. exact group_members_spec. Qed.
+Theorem C02_minimum_survivor_is_a_member : forall x r, In (pick_min x r) (x :: r).
+Proof. exact (proj2 pick_min_ok). Qed.
+Theorem C02_maximum_survivor_is_a_member : forall x r, In (pick_max x r) (x :: r).
+Proof. exact (proj2 pick_max_ok). Qed.
+(* no member of a group beats the survivor: nothing is smaller than the minimum survivor by the key
+   (value, penalised), nothing is larger than the maximum survivor by the key (value, not penalised) *)
+Theorem C02_minimum_survivor_is_least : forall x r y, In y (x :: r) -> key_lt y (pick_min x r) = false.
+Proof. exact pick_min_least. Qed.
+Theorem C02_maximum_survivor_is_greatest : forall x r y,
+  In y (x :: r) -> key_lt (flipk (pick_max x r)) (flipk y) = false.
+Proof. exact pick_max_greatest. Qed.
+Theorem C02_group_key_order : forall a b,
+  key_lt a b = true <-> (fst a < fst b \/ (fst a == fst b /\ snd a = false /\ snd b = true))%Q.
+Proof. exact key_lt_spec. Qed.
+Theorem C02_only_post_mul_unpenalised : forall pen hig base mods,
+  (forall g, In g mods -> g_op g = ModOperator_post_mul /\ g_mode g = ModAggregateMode_stack /\ g_pen g = false) ->
+  combine_mods pen hig base mods = fold_left (fun a x => (a * (1 + x))%Q) (map g_val mods) base.
+Proof. exact combine_only_post_mul. Qed.
+(* ... and it does not depend on the order in which the modifications were gathered *)
+Theorem C02_value_independent_of_gathering_order : forall pen hig base mods mods',
+  Permutation mods mods' -> Forall (fun g => Qred (g_val g) = g_val g) mods ->
+  (combine_mods pen hig base mods == combine_mods pen hig base mods')%Q.
+Proof. exact combine_mods_perm. Qed.
+
 (* non-vacuity: base 100, +10% and +20% post_percent on a non-stackable
    attribute from a non-immune source (penalised chain, strongest first), then
    a +5 addition: 100 * (1.2) * (1 + 0.1 * pen1) + ... computed by the model *)
@@ -68,3 +110,12 @@ Print Assumptions C02_stacking_cutoff.
 Print Assumptions C02_cap_le_max.
 Print Assumptions C02_round2_hundredths.
 Print Assumptions C02_round_nearest.
+Print Assumptions C02_value_by_operator.
+Print Assumptions C02_group_members.
+Print Assumptions C02_minimum_survivor_is_a_member.
+Print Assumptions C02_maximum_survivor_is_a_member.
+Print Assumptions C02_minimum_survivor_is_least.
+Print Assumptions C02_maximum_survivor_is_greatest.
+Print Assumptions C02_group_key_order.
+Print Assumptions C02_only_post_mul_unpenalised.
+Print Assumptions C02_value_independent_of_gathering_order.
